@@ -674,6 +674,24 @@ def leg_fault_injection(cases, flavour, tier, jobs=8):
                 retry = toks(il[2])
                 if retry[0] != "ok" and case.get("retry_ok", True):
                     fs_.append(Failure("retry_fails", n, f"{where}: the same call without the fault -> {' '.join(retry[:3])}", sig=sig))
+                if case["kind"] == "remove_fully":
+                    files_, _, _ = parse_dump(il[0])
+                    left = [p_ for p_ in ("c0/" + L.content_rel(L.sri_of(case["algo"], case["rf_data"])), "c0/" + L.bucket_rel(case["rf_key"]))
+                            if p_ in files_]
+                    if res[0] == "ok" and left:
+                        fs_.append(Failure("untruthful_remove_fully", n, f"{where}: remove_fully answered ok but {left[0]} is still there", sig=sig))
+                    if res[0] == "err" and retry[0] != "ok":
+                        fs_.append(Failure("retry_fails", n, f"{where}: remove_fully answered {' '.join(res[:3])}; the same call without the fault -> "
+                                           f"{' '.join(retry[:3])}", sig=sig))
+                if case["kind"] == "list" and res[0] == "ok":
+                    # a listing under a fault may contain error items, but must not silently leave out a live entry
+                    items = r.impl_lines[vi].split(" ", 1)[1].split(";") if " " in r.impl_lines[vi] else []
+                    keys_listed = {x.split("key=")[1].split(" ")[0] for x in items if x.startswith("meta ") and "key=" in x}
+                    has_err = any(not x.startswith("meta ") for x in items)
+                    want_keys = {hx(k_) for k_ in [case["key"]] + list(case.get("others", {}))}
+                    if not has_err and not want_keys <= keys_listed:
+                        fs_.append(Failure("listing_omits_under_fault", n, f"{where}: the listing has no error item and leaves out "
+                                           f"{len(want_keys - keys_listed)} of {len(want_keys)} live entries", sig=sig))
                 k = 3
                 if case["key"] is not None and case.get("data") is not None:
                     rd = toks(il[k]); k += 1
@@ -917,6 +935,13 @@ def model_crash_set(setup_ops, setup_impl, victim):
     return res
 
 
+def fault_cases_list(r):
+    """Listing victims for C10: three live keys in three buckets."""
+    ws = [w_oneshot("s", "sha256", b"la", b"value a"), w_oneshot("a", "sha512", b"lb", b"value b"), w_oneshot("s", "sha1", b"lc", b"value c")]
+    return [{"setup": ws, "victim": "list c0", "key": b"la", "data": b"value a", "algo": "sha256", "kind": "list",
+             "others": {b"lb": b"value b", b"lc": b"value c"}}]
+
+
 def fault_cases_writes(r):
     """Write-only cases for C14 (temp files after failed commits), all entry points x flavours."""
     d = b"fault data " * 20
@@ -955,6 +980,11 @@ def fault_cases(r):
          "victim": f"copy_hash_unchecked s c0 {sri_tok('sha256', d)} out/dest", "key": key, "data": d, "algo": "sha256", "kind": "copy", "others": others},
         {"setup": base + [w_oneshot("s", "sha256", key, d)], "victim": f"remove s c0 {hx(key)}", "key": None, "data": None, "algo": "sha256", "kind": "remove", "others": others},
         {"setup": base + [w_oneshot("s", "sha256", key, d)], "victim": "list c0", "key": key, "data": d, "algo": "sha256", "kind": "list", "others": others},
+        # full removal: an ok answer means entry AND content are gone; after an error answer the same call succeeds
+        {"setup": base + [w_oneshot("s", "sha256", key, d)], "victim": f"remove_fully s c0 {hx(key)}", "key": None, "data": None, "algo": "sha256",
+         "kind": "remove_fully", "rf_key": key, "rf_data": d, "retry_ok": False, "others": others},
+        {"setup": base + [w_oneshot("s", "sha256", key, d)], "victim": f"remove_fully a c0 {hx(key)}", "key": None, "data": None, "algo": "sha256",
+         "kind": "remove_fully", "rf_key": key, "rf_data": d, "retry_ok": False, "others": others},
         {"setup": base + [w_oneshot("s", "sha256", key, d)], "victim": "clear s c0", "key": None, "data": None, "algo": "sha256", "kind": "clear", "others": {}},
         {"setup": base + [w_oneshot("s", "sha256", key, d)], "victim": "clear a c0", "key": None, "data": None, "algo": "sha256", "kind": "clear", "others": {}},
     ]
